@@ -161,6 +161,18 @@ func RunCase(prog *ssa.Program, pkg *ssa.Package, harness string, shape map[stri
 	tmo := ro.TimeoutMs
 	check := func(asserts []smt.Term, want []smt.Term) (smt.Result, map[string]uint64) {
 		all := append(append([]smt.Term{}, base...), asserts...)
+		trivial := true
+		for _, a := range all {
+			if !a.IsTrue() {
+				trivial = false
+				break
+			}
+		}
+		if trivial {
+			res.Queries["sat"]++
+			res.Queries["by:constant-folding"]++
+			return smt.Sat, map[string]uint64{}
+		}
 		r, m, who := Race(solvers, all, want, tmo, ro.CrossCheck, &res.Notes)
 		res.Queries[r.String()]++
 		if who != "" {
